@@ -40,34 +40,39 @@ Qed.
 Lemma step_filter ts st r :
   step_gds (Some ts) (filter_state ts st) r = filter_sres ts (step_gds None st r).
 Proof.
-  unfold step_gds. destruct (kind_of (rtype r));
-    cbn [filter_state s_name s_units s_done s_cur s_open s_width s_key s_path_started with_open with_cur filter_sres];
+  pose proof (flush_cur_filter ts st) as Hfl.
+  unfold step_gds. destruct st as [nm un dn cu op wd ky ps].
+  unfold filter_state, flush_cur in *.
+  cbn [s_name s_units s_done s_cur s_open s_width s_key s_path_started] in *.
+  destruct (kind_of (rtype r));
+    cbn [filter_state s_name s_units s_done s_cur s_open s_width s_key s_path_started with_open with_cur
+         with_name with_units with_done with_width with_key with_started filter_sres filter_cur filter_lib
+         g_name g_units g_cells];
     try reflexivity.
-  - (* ENDLIB *) unfold filter_lib. cbn [g_name g_units g_cells]. rewrite <- flush_cur_filter. reflexivity.
-  - (* BGNSTR *) unfold filter_state at 2. cbn [s_name s_units s_done s_cur s_open s_width s_key s_path_started filter_cur].
-    rewrite <- flush_cur_filter. reflexivity.
-  - (* STRNAME *) destruct (s_cur st) as [[c b]|]; reflexivity.
-  - (* LAYER *) destruct (s_open st) as [[p|h|rf|l]|]; reflexivity.
-  - (* DATATYPE *) destruct (s_open st) as [[p|h|rf|l]|]; reflexivity.
-  - (* WIDTH *) destruct (s_open st) as [[p|h|rf|l]|]; reflexivity.
-  - (* XY *) destruct (s_open st) as [[p|h|rf|l]|]; reflexivity.
-  - (* ENDEL *) destruct (s_open st) as [[p|h|rf|l]|]; try reflexivity;
+  - (* ENDLIB *) rewrite Hfl. reflexivity.
+  - (* BGNSTR *) rewrite Hfl. reflexivity.
+  - (* STRNAME *) destruct cu as [[c b]|]; reflexivity.
+  - (* LAYER *) destruct op as [[p|h|rf|l]|]; reflexivity.
+  - (* DATATYPE *) destruct op as [[p|h|rf|l]|]; reflexivity.
+  - (* WIDTH *) destruct op as [[p|h|rf|l]|]; reflexivity.
+  - (* XY *) destruct op as [[p|h|rf|l]|]; reflexivity.
+  - (* ENDEL *) destruct op as [[p|h|rf|l]|]; try reflexivity;
       try (destruct (drop_closing (p_pts p)); [|reflexivity]);
-      (destruct (s_cur st) as [[c b]|]; [|reflexivity]);
+      (destruct cu as [[c b]|]; [|reflexivity]);
       cbn [filter_cur filter_sres filter_state with_open with_cur s_name s_units s_done s_cur s_open s_width s_key s_path_started];
       rewrite commit_filter; reflexivity.
-  - destruct (s_open st) as [[p|h|rf|l]|]; reflexivity.
-  - destruct (s_open st) as [[p|h|rf|l]|]; reflexivity.
-  - destruct (s_open st) as [[p|h|rf|l]|]; reflexivity.
-  - destruct (s_open st) as [[p|h|rf|l]|]; reflexivity.
-  - destruct (s_open st) as [[p|h|rf|l]|]; reflexivity.
-  - destruct (s_open st) as [[p|h|rf|l]|]; reflexivity.
-  - destruct (s_open st) as [[p|h|rf|l]|]; reflexivity.
-  - destruct (s_open st) as [[p|h|rf|l]|]; reflexivity.
-  - destruct (s_open st) as [[p|h|rf|l]|]; reflexivity.
-  - destruct (s_open st) as [e|]; reflexivity.
-  - destruct (s_open st) as [[p|h|rf|l]|]; reflexivity.
-  - destruct (s_open st) as [[p|h|rf|l]|]; reflexivity.
+  - destruct op as [[p|h|rf|l]|]; reflexivity.
+  - destruct op as [[p|h|rf|l]|]; reflexivity.
+  - destruct op as [[p|h|rf|l]|]; reflexivity.
+  - destruct op as [[p|h|rf|l]|]; reflexivity.
+  - destruct op as [[p|h|rf|l]|]; reflexivity.
+  - destruct op as [[p|h|rf|l]|]; reflexivity.
+  - destruct op as [[p|h|rf|l]|]; reflexivity.
+  - destruct op as [[p|h|rf|l]|]; reflexivity.
+  - destruct op as [[p|h|rf|l]|]; reflexivity.
+  - destruct op as [e|]; reflexivity.
+  - destruct op as [[p|h|rf|l]|]; reflexivity.
+  - destruct op as [[p|h|rf|l]|]; reflexivity.
 Qed.
 
 Definition omap {A B} (f : A -> B) (o : outcome A) : outcome B :=
